@@ -67,6 +67,7 @@ package builder
 //@   ensures nothing-is-executing: bc.executionCancellation == nil && bc.executionUpdates == nil
 //@   ensures reports-idle: isIdle(bc)
 //@   at call dyn#1 assume_post bc.executionUpdates == old(bc.executionUpdates) -- the cancellation function is a context.CancelFunc: it does not write fields of the client
+//@   loop 0 exhaustive
 //@   loop 0 invariant bc.executionUpdates == old(bc.executionUpdates) && bc == old(bc)
 //@   ensures cancelled-action-has-fully-stopped: old(bc.executionCancellation) != nil ==> closed(old(bc.executionUpdates))
 
@@ -103,6 +104,7 @@ package builder
 // executor has really finished (C08: stopExecution waits for exactly this).
 //@ func (*tracingBuildExecutor).Execute
 //@   props C08
+//@   loop 0 exhaustive
 //@   loop 0 invariant recvd(baseCompletion) == 0
 //@   ensures returns-only-after-the-wrapped-executor-has-returned: recvd(baseCompletion) == 1
 
@@ -127,7 +129,9 @@ package builder
 //@ func (*outputNode).uploadOutputs
 //@   props C10
 //@   at call EnterUploadableDirectory#1 ghostset execsteps[7] = execsteps(7) + 1
+//@   loop 0 exhaustive
 //@   loop 0 invariant execsteps(7) == 0
+//@   loop 1 exhaustive
 //@   loop 1 invariant every-subdirectory-with-declared-outputs-is-entered: execsteps(7) == rangeindex + 1
 
 // The goroutine that runs an action reports its completion exactly once, with a
@@ -155,6 +159,7 @@ package builder
 //@ func (*BuildClient).consumeExecutionUpdatesNonBlocking
 //@   props C08
 //@   requires bcInv(bc) && bc.request.CurrentState != nil
+//@   loop 0 exhaustive
 //@   loop 0 invariant bcInv(bc) && bc.request.CurrentState != nil && bc == old(bc)
 //@   ensures inv: bcInv(bc) && bc.request.CurrentState != nil
 
@@ -276,6 +281,7 @@ package builder
 //@   at call saveError#2 ghostset outfail[nil] = outfail(nil) - 1
 //@   at call saveError#3 ghostset outfail[nil] = outfail(nil) - 1
 //@   at call saveError#5 ghostset outfail[nil] = outfail(nil) - 1
+//@   loop 0 exhaustive
 //@   loop 0 invariant every-failure-so-far-is-recorded: outfail(nil) == old(outfail(nil))
 //@   ensures every-failure-below-this-directory-is-recorded: outfail(nil) == old(outfail(nil))
 //@   requires list-and-map-describe-the-same-directories: len(s.directories) == len(s.directoriesSeen) && s.directoriesSeen != nil
@@ -286,13 +292,17 @@ package builder
 //@ func (*uploadOutputsState).uploadOutputDirectoryEntered
 //@   props C10
 //@   at call uploadDirectory#1 assert every-tree-starts-empty: len(dState.directories) == 0 && len(dState.directoriesSeen) == 0
+//@   loop 1 exhaustive
 //@   loop 1 invariant the-last-collected-directory-is-written-first-as-the-root-and-all-others-as-children:
 //@             i >= 0 && i <= len(directories) && tag == ite(i == len(directories), 10, 18) && storefailed(nil) == 0
+//@   loop 0 exhaustive
 //@   loop 0 invariant storefailed(nil) == 0
 //@   at call AppendVarint#1 assert each-directory-is-framed-with-its-own-length: i >= 1 && i <= len(directories) && arg1 == len(directories[i-1])
 //@   at call Put#1 ghostset storefailed[nil] = ite(r0 != nil, 1, storefailed(nil))
 //@   at call Put#2 ghostset storefailed[nil] = ite(r0 != nil, 1, storefailed(nil))
+//@   loop 2 exhaustive
 //@   loop 2 invariant storefailed(nil) == 1 ==> !successfullyUploaded
+//@   loop 3 exhaustive
 //@   loop 3 invariant storefailed(nil) != 1
 //@   ensures an-output-directory-whose-upload-failed-is-not-reported:
 //@             storefailed(nil) == 1 ==> len(s.actionResult.OutputDirectories) == old(len(s.actionResult.OutputDirectories))
